@@ -304,7 +304,7 @@ def run(ctx):
         raise Inconclusive("vacuous generation: walks of SvcInfo_Gen reached only %s" % sorted(outcomes))
     ctx.notes["terminal_states_reached_by_walks"] = sorted(outcomes)
     rnd.shuffle(scripts)
-    cap = 220 if quick else 3200
+    cap = 220 if quick else 2000
     scripts = scripts[:cap]
     ctx.log("TLC generated %d distinct module scripts" % len(scripts))
     ctx.sample({"tlc_generated_script": scripts[0]})
